@@ -128,13 +128,32 @@ fn check(plan: &Plan, out: &RunOut) -> CheckOut {
         if b.live_workers < configured {
             co.violate("C15", "fewer_workers_than_configured", format!("C15|fewer_live_workers|health={}|workers{}", health, wclass), format!("the process keeps running with {} live workers of {} configured", b.live_workers, configured));
         }
-        // each worker answers on the configured address (distinct delegated keys per protocol)
+        // each worker answers on the configured address. Distribution is round-robin in this
+        // check, so once at least `configured` datagrams were delivered every worker has received
+        // one; every worker that received valid requests must be seen answering, and each
+        // (worker, protocol) pair must use exactly one delegated key of its own.
+        let valid_total = v.recvs.iter().filter(|q| matches!(&q.class, Ok(i) if i.must == r::Must::Answer)).count();
+        let receiving: std::collections::BTreeSet<usize> = v.recvs.iter().filter(|q| matches!(&q.class, Ok(i) if i.must == r::Must::Answer)).map(|q| q.task).collect();
+        let answering: std::collections::BTreeSet<usize> = v.sends.iter().map(|s| s.task).collect();
+        if valid_total >= configured * 2 && b.panics.is_empty() {
+            let delivered_to: std::collections::BTreeSet<usize> = w.socks.iter().filter(|s| w.procs[s.proc].sut && s.delivered > 0).map(|s| s.id).collect();
+            if delivered_to.len() != configured {
+                co.violate("C15", "fewer_workers_than_configured", format!("C15|sockets_receiving_differs|health={}|workers{}", health, wclass), format!("{} worker sockets received traffic under round-robin distribution, {} workers configured", delivered_to.len(), configured));
+            }
+            if answering.len() != receiving.len() {
+                co.violate("C15", "fewer_workers_than_configured", format!("C15|workers_answering_differs|health={}|workers{}", health, wclass), format!("{} workers received valid requests, {} workers sent responses", receiving.len(), answering.len()));
+            }
+        }
         for proto in [r::Proto::Classic, r::Proto::Ietf] {
-            let keys: std::collections::BTreeSet<Vec<u8>> = v.sends.iter().filter(|s| view::response_proto(&s.data) == proto).filter_map(|s| s.verdict.as_ref().and_then(|x| x.as_ref().ok()).map(|x| x.online_pubk.clone())).collect();
-            let sent_proto = v.recvs.iter().filter(|q| matches!(&q.class, Ok(i) if i.proto == proto)).count();
-            // only demanded when enough requests of this protocol arrived to reach every worker twice
-            if sent_proto >= configured * 4 && keys.len() != configured && b.panics.is_empty() && spec.fault_pct == 0 {
-                co.violate("C15", "fewer_workers_than_configured", format!("C15|workers_answering_differs|health={}|workers{}", health, wclass), format!("{} distinct online keys answered {} requests, {} workers configured", keys.len(), proto.name(), configured));
+            let mut key_of: BTreeMap<usize, std::collections::BTreeSet<Vec<u8>>> = BTreeMap::new();
+            for s in v.sends.iter().filter(|s| view::response_proto(&s.data) == proto) {
+                if let Some(Ok(x)) = &s.verdict {
+                    key_of.entry(s.task).or_default().insert(x.online_pubk.clone());
+                }
+            }
+            let all: std::collections::BTreeSet<&Vec<u8>> = key_of.values().flatten().collect();
+            if key_of.values().any(|k| k.len() != 1) || all.len() != key_of.len() {
+                co.violate("C15", "online_key_sharing", format!("C15|online_keys_not_one_per_worker|proto={}", proto.name()), format!("{} workers answered {} requests with {} distinct delegated keys", key_of.len(), proto.name(), all.len()));
             }
         }
         if spec.fault_pct == 0 {
